@@ -490,7 +490,8 @@ def run(repo, res, tier):
     # (otherwise the shared matcher runs whatever the caller's table of that name holds): DECLGUARD, shared with C01 / C04 / C09
     from vlib import rules_declguard as DG
     DG.declguard_rule(repo, res, modules=("bash",))
-    common.run_traversals(repo, res, only={"check::specialize_nonterminals", "check::resolve_nonterminals"})
+    from . import c02 as _c02b
+    common.run_traversals(repo, res, only={"check::specialize_nonterminals", "check::resolve_nonterminals", "check::do_propagate_fallback_levels"}, flows=_c02b.flows_table())
     RPL.from_grammar_order(repo, res)
     # the chosen definition is what runs only if it is reached at all (definitions expanded in dependency order, TOPO, shared with C02)
     # and if the id under which its function is defined is the id the tables call (base-dimension typing of command-id holes, DIM, shared with C04)
